@@ -339,6 +339,11 @@ func run(c *hx.Ctx) error {
 		}
 		single(s, lexh.Mutate(r, window(s.Data), other), f)
 	}
+	// non-ASCII inside every lexical element of a code region, before an error position on the same line
+	for _, s := range lexh.NonASCII() {
+		single(s, s.Data, s.Format)
+		res.Hist("nonascii-stream")
+	}
 	for i := 0; i < c.N(2500, 30000); i++ {
 		t := corpus.Trees[r.Intn(len(corpus.Trees))]
 		b := lexh.BuildCase{Kind: 't', Entry: t.Entry, Files: map[string][]byte{}}
